@@ -952,6 +952,8 @@ def require_supported(rep, rule, c):
     for ln, why in c.t.unsupported:
         rep.unk(rule, c.fi.site, f"unsupported construct", f"line {ln}: {why}")
         ok = False
+    if getattr(c.t, "zipped_loops", None):
+        rep.assume("A8")
     return ok
 
 
